@@ -463,9 +463,12 @@ def run_check(spec, tier, seed, replay=None, verbose=False, workers_override=Non
     }
     if exhaustive and all(exhaustive.values()) and spec.custom == "exhaustive":
         evidence["coverage"]["exhaustive"] = True
-    os.makedirs(EVIDENCE_DIR, exist_ok=True)
+    # evidence/<id>.json describes runs against /repo itself; a run against a scratch tree (VERIF_REPO, sensitivity work)
+    # leaves its record next to its logs instead
+    ev_dir = EVIDENCE_DIR if os.path.realpath(REPO) == "/repo" else os.path.join(RUN_ROOT, "evidence-scratch")
+    os.makedirs(ev_dir, exist_ok=True)
     if not replay:
-        with open(os.path.join(EVIDENCE_DIR, pid + ".json"), "w") as f:
+        with open(os.path.join(ev_dir, pid + ".json"), "w") as f:
             json.dump(evidence, f, indent=1)
             f.write("\n")
     for sig, (cnt, example) in sorted(known_hits.items()):
